@@ -256,6 +256,18 @@ def rule_k2(chk: Check, producers: set[str]) -> None:
                 # no ssl=: the factory must be the manual TLS wrapper with a produced context
                 fac = call.args[0] if call.args else kwarg(call, "protocol_factory")
                 good = False
+                # the factory: a lambda, or a named local function, that returns the wrapper
+                fbody = None
+                if isinstance(fac, ast.Lambda) and isinstance(fac.body, ast.Call):
+                    fbody = fac.body
+                elif isinstance(fac, ast.Name):
+                    for fd in ast.walk(fi.node):
+                        if isinstance(fd, (ast.FunctionDef, ast.AsyncFunctionDef)) and fd.name == fac.id and fd is not fi.node:
+                            rv = [r.value for r in ast.walk(fd) if isinstance(r, ast.Return)]
+                            if len(rv) == 1 and isinstance(rv[0], ast.Call):
+                                fbody = rv[0]
+                if fbody is not None:
+                    fac = ast.Lambda(args=None, body=fbody)
                 if isinstance(fac, ast.Lambda) and isinstance(fac.body, ast.Call):
                     cname = _last(dotted(fac.body.func))
                     if cname in manual:
